@@ -136,6 +136,12 @@ def jobs(tier, seed):
                     js.append({'harness': 'reliable', 'weight': 2 ** (kd + ka),
                                'cfg': {'cc': cc, 'm': m, 'kd': kd, 'ka': ka, 'd1': d1, 'd2': d2, 'rtt0': 1.0,
                                        'horizon': 100000}})
+    # round-trip time above the initial RTO: spurious retransmissions produce duplicate segments and duplicate ACKs
+    for cc in ('reno', 'cubic'):
+        for m in (4, 6) if tier == 'quick' else (4, 6, 8, 13):
+            js.append({'harness': 'reliable', 'weight': 100,
+                       'cfg': {'cc': cc, 'm': m, 'kd': m + 3, 'ka': 2, 'max_drops': 1, 'd1': 1.5, 'd2': 1.5, 'rtt0': 1.0,
+                               'horizon': 100000}})
     # longer flows, at most two drops anywhere among the first transmissions (all pairs data/data, data/ACK, ACK/ACK)
     for cc in ('reno', 'cubic'):
         for m in (5, 6) if tier == 'quick' else (5, 6, 8):
